@@ -6,6 +6,14 @@ props = [json.loads(l) for l in open(os.path.join(V, "properties.jsonl"))]
 ids = [p["id"] for p in props]
 
 CLAIMS = {
+ "C07": dict(cat="other", tech="AST shape rules (deref-only access, guarded subscripts, bounded returns), IR taint analysis of lengths assembled from buffer bytes with dominance of bounding comparisons, IR dominance of byte reads by len comparisons, validator/reader table agreement",
+    text="Decides, for every byte buffer, the structural soundness conditions of rtosc_message_length / rtosc_valid_message_p: ring memory is read only through the bounds-checked deref(); each subscript in deref() is under its own bound test; every returned non-zero length was tested against the available bytes; a length decoded from the buffer enters position arithmetic only after an upper-bound comparison (otherwise 32-bit wrap defeats the final bound - the defect class found and fixed here); rtosc_valid_message_p reads msg bytes only under a strict counter<len (or len!=0 for msg[0]) edge; and the validator accounts per tag for exactly what arg_size/extract_arg consume. It does not decide agreement with an independent decoder on values.",
+    note="Trusted: clang AST/-O0 IR, sa/rules/taint.py (flow-insensitive on stack slots, arithmetic does not propagate taint), sa/irlib.py dominators. R07.5 is a necessary condition only.",
+    ref="DESIGN.md 2 C07"),
+ "C08": dict(cat="other", tech="IR guard dominance for bundle writers, big-endian sequence check, finite-domain evaluation of the stride expressions of writer/sizer/four walkers over element sizes 4..32, magic/offset agreement between writer and readers",
+    text="Decides structural conditions of lossless bundling for all element sequences: rtosc_bundle and append_bundle write only under an exact capacity guard whose compared amount equals the amount written; length and time-tag codecs are big-endian; writer, size pre-computation and the four independent walkers step by size+4 for every size; magic bytes and header offsets (0/8/16) agree between writer and every reader; prefix value, copy length and advance are one variable measured from the copied message.",
+    note="Trusted: clang AST/-O0 IR, sa/fdeval.py, sa/rules/guard.py. Element sizes are assumed to be multiples of 4. Byte identity of nested elements is not decided.",
+    ref="DESIGN.md 2 C08"),
  "C01": dict(cat="other", tech="AST table extraction + finite-domain evaluation: per-tag payload tables of 7 sibling codec functions vs the OSC 1.0 table, big-endian shift sequences, alignment-step tables over pos mod 4, cursor-offset discipline, va_arg/union-member agreement",
     text="Decides structural necessary conditions of the wire format for every input: each of the seven hand-written functions that carry a private copy of the type-tag table assigns every tag its OSC 1.0 payload class; every numeric emit/extract sequence is big-endian on consecutive bytes; every alignment step computes the table of its field kind (evaluated over pos mod 4, not matched textually); type-string loops classify the element they tested and skip exactly '[' and ']'; rtosc_v2args reads the promoted C type into the union member the writer reads; the wrappers share one decoder/forward buffers unchanged. It does not decide the bytes for particular values - that part of the property quantifies over run-time values.",
     note="Trusted: clang AST, sa/fdeval.py, idiom recognisers in sa/rules/codec.py (an unknown idiom is exit 2, not a pass), the OSC tag table in sa/props/C01.py.",
